@@ -1,6 +1,6 @@
 #!/bin/bash
 # usage: try_seeded_alt.sh <patch> <check id>...   -- same as try_seeded.sh but on a scratch worktree of /repo HEAD
-# (VERIF_REPO), so that /repo itself stays untouched and other checks can run meanwhile.
+# (VERIF_REPO; optional ARCHS=a,b restricts the architectures to save build time), so that /repo itself stays untouched and other checks can run meanwhile.
 patch=$1; shift
 name=$(echo "$patch" | md5sum | cut -c1-8)
 wt=/tmp/wt/alt_$name
@@ -9,7 +9,7 @@ git -C /repo worktree add -q --detach $wt HEAD || exit 2
 git -C $wt apply "$patch" || { echo "APPLY FAILED $patch"; git -C /repo worktree remove --force $wt; exit 2; }
 for id in "$@"; do
   echo "=== $patch :: $id"
-  (cd /verif && VERIF_REPO=$wt ./check $id 2>&1 | grep -E "VIOLATION|KNOWN-FINDING|INCONCLUSIVE|^\[C|witness" | cut -c1-300 | head -14)
+  (cd /verif && VERIF_REPO=$wt ./check $id ${ARCHS:+--arch $ARCHS} 2>&1 | grep -E "VIOLATION|KNOWN-FINDING|INCONCLUSIVE|^\[C|witness" | cut -c1-300 | head -14)
 done
 alt=$(python3 -c "import hashlib,os;print('alt-'+hashlib.sha256(os.path.realpath('$wt').encode()).hexdigest()[:8])")
 rm -rf /verif/build/$alt /verif/out/$alt
